@@ -126,6 +126,10 @@ pub fn big_matrices(thorough: bool) -> Vec<(String, usize, Vec<Vec<usize>>)> {
         // a variable of degree d: d checks {0, 1+i%3}
         v.push((format!("one-variable:{}x4", d), 4, (0..d).map(|i| vec![0, 1 + i % 3]).collect()));
     }
+    // a variable just past the range of a 16-bit accumulator of 8-bit messages (257 x 127 + 127 = 32766)
+    for d in [258usize, 300] {
+        v.push((format!("one-variable:{}x4", d), 4, (0..d).map(|i| vec![0, 1 + i % 3]).collect()));
+    }
     for r in if thorough { vec![1024usize, 1025, 2049, 4097] } else { vec![1025usize] } {
         v.push((format!("block-diagonal:{}x{}", r, 3 * r), 3 * r, (0..r).map(|i| vec![3 * i, 3 * i + 1, 3 * i + 2]).collect()));
     }
@@ -147,6 +151,9 @@ fn big_vectors(n: usize) -> Vec<Vec<f64>> {
     out.push(v);
     out.push((0..n).map(|j| if j % 2 == 0 { 1.5 } else { -1.5 }).collect());
     out.push((0..n).map(|j| if j % 3 == 0 { -0.5 } else { 3.0 }).collect());
+    // saturated 8-bit inputs (127 / 8)
+    out.push((0..n).map(|j| if j == 0 { -15.875 } else { 15.875 }).collect());
+    out.push(vec![-15.875; n]);
     // the largest magnitude the property allows
     out.push((0..n).map(|j| if j == 0 { -1e30 } else { 1e30 }).collect());
     out.push((0..n).map(|j| if j % 2 == 0 { -1e30 } else { 1e30 }).collect());
@@ -361,7 +368,7 @@ fn replay_element(v: &Value, acc: &mut Acc) {
     if v["kind"] == "big" {
         for (mname, n, rows) in big_matrices(true) {
             if Some(mname.as_str()) == v["matrix"].as_str() {
-                run_big_job(v["name"].as_str().unwrap_or(""), &mname, n, &rows, &[0, 1, 5], acc);
+                run_big_job(v["name"].as_str().unwrap_or(""), &mname, n, &rows, &[0, 1, 5, 12], acc);
             }
         }
         return;
@@ -468,7 +475,7 @@ pub fn run(run: &Run) -> i32 {
                 bigjobs.push((name.clone(), i));
             }
         }
-        let blimits = [0usize, 1, 5];
+        let blimits = [0usize, 1, 5, 12];
         let a2 = par_items(&bigjobs, |(name, i), a| run_big_job(name, &big[*i].0, big[*i].1, &big[*i].2, &blimits, a));
         acc = acc.merge(a2);
         // per-implementation outcome mix must not be "shortcut only"
